@@ -90,7 +90,10 @@ package config
 //@   maprange 5 unordered-result pkgs
 // C15: for EVERY converter the packages named by its own lines and by the global lines are loaded (the existing
 // package at the output location decides the package clause), the default ./generated location included
-//@   loop@C15 1 invariant idx > 0 ==> reached("registerConverterLines#1") && reached("registerConverterLines#2")
+//@   loop@C15,C01,C12 1 invariant idx > 0 ==> reached("registerConverterLines#1") && reached("registerConverterLines#2")
+// (inside registerConverterLines, which is executed in place) the package of an output:file target is resolved from the
+// declaring file, the declaring package and the parsed path
+//@   at@C15,C01 call resolvePackage#1 assert arg0 == filename && arg1 == sourcePackage && arg2 == file
 //@   at@C15 call registerConverterLines#1 assert arg1 == raw.WorkDir && arg2 == c.FileName && arg3 == c.PackagePath && same(arg4, c.Converter)
 //@   at@C15 call registerConverterLines#2 assert arg1 == raw.WorkDir && arg2 == c.FileName && arg3 == c.PackagePath && same(arg4, raw.Global)
 
@@ -124,7 +127,7 @@ package config
 //@   props C15 C12 C14
 //@   propagates
 //@   at@C15 return assert cmd == parse.CmdName(value) && rest == parse.CmdRest(value)
-//@   at@C15,C18,C01 return assert cmd == "output:package" && err == nil && !strings.Contains(parse.StringValue(rest), ":") ==> c.OutputPackagePath == parse.StringValue(rest) && c.OutputPackageName == ""
+//@   at@C15,C18,C01,C12 return assert cmd == "output:package" && err == nil && !strings.Contains(parse.StringValue(rest), ":") ==> c.OutputPackagePath == parse.StringValue(rest) && c.OutputPackageName == ""
 //@   at@C15,C18,C01 return assert cmd == "output:package" && err == nil && strings.Contains(parse.StringValue(rest), ":") ==> c.OutputPackagePath + ":" + c.OutputPackageName == parse.StringValue(rest) && !strings.Contains(c.OutputPackagePath, ":")
 //@   at@C15 return assert cmd == "output:package" ==> (err == nil) == parse.StringOK(rest)
 //@   at@C15 return assert cmd != "output:package" ==> c.OutputPackagePath == old(c.OutputPackagePath) && c.OutputPackageName == old(c.OutputPackageName)
@@ -214,7 +217,7 @@ package config
 //@   at@C12 return assert MethodKey(cmd) ==> same(m.Common, old(m.Common))
 //@   at@C14 return assert cmd == "context" && err == nil ==> has(m.localOpts.Context, parse.StringValue(rest))
 // per-use parse options of map|FUNC and default FUNC: optional source, generics allowed, the METHOD's context regex
-//@   at@C14,C06,C12 call ctx.Loader.GetOne#* assert arg2 != nil && arg2.Params == method.ParamsOptional && arg2.AllowTypeParams && arg2.ContextMatch == m.ArgContextRegex
+//@   at@C14,C06,C12,C11 call ctx.Loader.GetOne#* assert arg2 != nil && arg2.Params == method.ParamsOptional && arg2.AllowTypeParams && arg2.ContextMatch == m.ArgContextRegex
 //@           && arg2.OutputPackagePath == c.OutputPackagePath && arg0 == c.Package
 // the converter type that may appear as a parameter of the custom function is the one of THIS output format (none for
 // output:format function/variables: there is no receiver to pass)
